@@ -30,10 +30,12 @@ KindOK(spec, obs) ==
   \/ spec = "WrongType" /\ obs = "NonProcedure"      \* soundness rule 4: the Type named in TypeMisMatch is not compared
   \/ spec = "ImmutableVector|IndexRange" /\ obs \in {"ImmutableVector", "IndexRange"}   \* two simultaneous faults: either one
 
-OutcomeOK(r, o) ==
+\* anykind: the recording check declares that WHICH error is raised is not part of the property it validates
+\* (C11: "raise an error rather than return a value"); the classification of errors is C08's claim
+OutcomeOK(r, o, anykind) ==
   CASE r.k = "none"  -> o.k = "none"
     [] r.k = "value" -> o.k = "value" /\ Match(r.v, o.v)
-    [] r.k = "error" -> o.k = "error" /\ KindOK(r.kind, o.kind)
+    [] r.k = "error" -> o.k = "error" /\ (anykind \/ KindOK(r.kind, o.kind))
 
 TicksOK(out, ticks) ==
   /\ Len(out) = Len(ticks)
@@ -72,7 +74,7 @@ Compare ==
   /\ LET e == Rec[l]
          specIds == IF m.status = "done" /\ m.result.k = "value" /\ m.ctrl.m = "ret" THEN VecIds(m.ctrl.v, m.vecs) ELSE <<>>
          why == IF m.status # "done" THEN "specification did not finish within MaxSteps"
-                ELSE IF ~OutcomeOK(m.result, e.obs) THEN "outcome"
+                ELSE IF ~OutcomeOK(m.result, e.obs, e.anykind) THEN "outcome"
                 ELSE IF ~TicksOK(m.out, e.ticks) THEN "ticks"
                 ELSE IF m.result.k = "value" /\ ~AliasOK(specIds, e.ids) THEN "alias"
                 ELSE "ok"
